@@ -89,10 +89,13 @@ def run(tier, seed):
         cov.update(master_stage(r, seed, 80 if tier == 'quick' else 3000))
         return cov
     spec['extra'] = extra
+    spec = E.with_master_stage(spec, PID, tier, seed)
     core.standard_run(PID, tier, seed, spec)
 
 
 def replay_case(case):
+    if isinstance(case, dict) and case.get('engine') == 'E-master-probe':
+        return E.replay(PID, case)
     if isinstance(case, dict) and case.get('engine') == 'E-master':
         from .. import emaster
         hits = []
